@@ -18,7 +18,8 @@ THOROUGH_SECONDS = 600
 RULE_TEXT = ("Workflows whose steps (num_workers 1..4) take 1-3 injected resources built from sync/async factories that take "
              "tape-chosen time, cached and non-cached, arranged as single, chain, diamond (shared non-cached leaf) or a genuine "
              "cycle; a producer fans out 2-6 events so that several invocations resolve the same resources concurrently. "
-             "Non-trivial: >=2 resolutions of one resource overlapped in time; distinct = abstract trace shape.")
+             "Non-trivial: >=2 resolutions of one resource overlapped in time; distinct = abstract trace shape."
+             " In 30% of the two-step programs the second step refers to the first resource's factory through a descriptor with the opposite cache flag (identity judged per descriptor; the non-cached one must never be handed the cached object).")
 COMPONENTS = {"real": ["workflows.resource.ResourceManager/_Resource, step_function.partial, engine"], "stub": ["llama_index_instrumentation"],
               "sim": ["loop, clock, instrumented factories"]}
 ASSUMPTIONS = ["'one dependency resolution' = the resolution performed for one step invocation"]
